@@ -231,11 +231,13 @@ package main
 
 //@ func (*AtlasClient).DeleteClusterLogs
 //@   props C17
-//@   assigns tmp, stderrN, wfailOn
+//@   assigns tmp, stderrN, wfailOn, outN
 //@   ensures only-std-writers: wfailOn == store(store(old(wfailOn), os.Stdout, wfailOn[os.Stdout]), os.Stderr, wfailOn[os.Stderr])
 //@   loop 1 invariant removed {C17}: tmp == minus(old(tmp), elemsS(elems(logFiles), off(logFiles), _idx))
 //@   loop 1 invariant frame: unchangedBelow("Arr:Str") && heapTop >= old(heapTop) && (base(errs) == 0 || base(errs) > old(heapTop)) && wfailOn == store(store(old(wfailOn), os.Stdout, wfailOn[os.Stdout]), os.Stderr, wfailOn[os.Stderr])
 //@   ensures removed-all {C17}: tmp == minus(old(tmp), elemsS(elems(logFiles), off(logFiles), len(logFiles)))
+//@   loop 1 invariant out-grows: outN >= old(outN)
+//@   ensures out-grows: outN >= old(outN)
 
 //@ func (*AtlasClient).downloadClusterLogsForHost
 //@   props C17 C16 C20
@@ -272,7 +274,7 @@ package main
 //@ func (*AtlasClient).DownloadClusterLogs
 //@   props C17 C16
 //@   requires: c != nil && c.HTTPClient != nil
-//@   assigns tmp, effects, envOps, reqs, reqURL, stderrN, wfailOn, clusterStd
+//@   assigns tmp, effects, envOps, reqs, reqURL, stderrN, wfailOn, clusterStd, outN
 //@   ensures only-std-writers: wfailOn == store(store(old(wfailOn), os.Stdout, wfailOn[os.Stdout]), os.Stderr, wfailOn[os.Stderr])
 //@   loop 1 invariant one-request-per-host-in-order {C16}: clusterStd == atlasClusterInfo.ConnectionStrings.Standard && implies(schemeOf(clusterStd) != "mongodb+srv", _idx <= hostCount(clusterStd) && ReqAcc(seqPush(old(reqs), infoURL(c.BaseURL, projectID, clusterName)), hostSeq(clusterStd), _idx, c.BaseURL, projectID, startDate, endDate, reqs))
 //@   loop 1 invariant hosts-are-the-members {C16}: implies(schemeOf(clusterStd) != "mongodb+srv", len(hosts) == hostCount(clusterStd) && MapStrip(hostSeq(clusterStd), 0, elems(hosts), off(hosts), len(hosts))) && base(hosts) <= heapTop && (base(hosts) > old(heapTop) || base(hosts) == 0)
@@ -283,6 +285,8 @@ package main
 //@   ensures no-leftover-on-error {C17}: implies(result1 != nil, subset(tmp, old(tmp)))
 //@   ensures registered-on-success {C17}: implies(result1 == nil, tmp == union(old(tmp), elemsS(elems(result0), off(result0), len(result0))))
 //@   ensures touched-environment: envOps > old(envOps)
+//@   loop 1 invariant out-grows: outN >= old(outN)
+//@   ensures out-grows: outN >= old(outN)
 
 // ---------------------------------------------------------------------------------------------
 // main.go
@@ -295,9 +299,10 @@ package main
 
 //@ func main$1$1
 //@   props C17
-//@   assigns tmp, stderrN, wfailOn
+//@   assigns tmp, stderrN, wfailOn, outN
 //@   ensures only-std-writers: wfailOn == store(store(old(wfailOn), os.Stdout, wfailOn[os.Stdout]), os.Stderr, wfailOn[os.Stderr])
 //@   ensures cleanup {C17}: tmp == minus(old(tmp), elemsS(elems(*files), off(*files), len(*files)))
+//@   ensures out-grows: outN >= old(outN)
 
 //@ func main$2
 //@   props C09
